@@ -1126,7 +1126,9 @@ impl<R> RuleSet<R> {
     pub fn add_mut(&mut self, path: impl AsRef<str>, rule: impl Into<R>) -> &mut Self {
         let path = path.as_ref().to_owned();
 
-        if let Ok(idx) = self.rules.binary_search_by(|probe| probe.0.cmp(&path)) {
+        // The rules are not sorted by path (see the sort below), so a binary search by path
+        // can't be used to find the rule to replace.
+        if let Some(idx) = self.rules.iter().position(|probe| probe.0 == path) {
             // not swap_remove, because ordering!
             self.rules.remove(idx);
         }
